@@ -81,10 +81,10 @@ def run(tier, replay):
         if quick:
             lib.kverif(dc.GROUP, ["c17", "--out", f"{wd}/obs-walk.ndjson", "--walk", "3:0", "--stride", 5, "--seed", lib.seed()])
         else:
-            lib.kverif(dc.GROUP, ["c17", "--out", f"{wd}/obs-walk.ndjson", "--walk", "3:1", "--deep", "--stride", 8, "--seed", lib.seed()], timeout=3000)
+            lib.kverif(dc.GROUP, ["c17", "--out", f"{wd}/obs-walk.ndjson", "--walk", "3:1", "--deep", "--stride", 12, "--seed", lib.seed()], timeout=3000)
         parts.append(f"{wd}/obs-walk.ndjson")
         # (3) direction B: seeded random histories (up to 12 groups, dynamic groups, delete / revive)
-        dc.hist(PID, f"{wd}/obs-hist.ndjson", "C17", 5 if quick else 30, 50 if quick else 150)
+        dc.hist(PID, f"{wd}/obs-hist.ndjson", "C17", 5 if quick else 24, 50 if quick else 150)
         dc.hist(PID, f"{wd}/obs-mixed.ndjson", "mixed", 2 if quick else 12, 40 if quick else 150, seed_off=1)
         parts += [f"{wd}/obs-hist.ndjson", f"{wd}/obs-mixed.ndjson"]
     obs = dc.concat(f"{wd}/obs.ndjson", parts)
@@ -106,6 +106,6 @@ def run(tier, replay):
     }
     R.assumptions = ["single server; replicated membership changes are covered by the repl group",
                      "quick: 3 groups, 2 edits in the model, every 5th graph x every single edit on the real plugin; "
-                     "thorough: 3 groups + 1 leaf, 3 edits, every 8th graph x single edits and delete/revive sequences",
+                     "thorough: 3 groups + 1 leaf, 3 edits, every 12th graph x single edits and delete/revive sequences",
                      "model counterexamples are hypotheses: only L1 on the replayed observation counts"]
     R.finish()
